@@ -18,14 +18,22 @@ def run(ctx):
     ok, log = ctx.build_props()
     if ok:
         _ir.nonvacuity(ctx, meta)
-        _ir.check_programs(ctx, meta, IMPORTS, 'c02_check', None,
-                           'the best agent may miss an evaluated minimum', 'C02_best_is_min')
+        failed = _ir.check_programs(ctx, meta, IMPORTS, 'c02_check', None,
+                                    'the best agent may miss an evaluated minimum', 'C02_best_is_min')
+        # histories of tasks on one space (C02_task_histories): the task must also re-establish the start condition
+        # (population feasible, no agent below the best agent); c02r_check implies c02_check (C02_restart_check_implies_check)
+        _ir.check_programs(ctx, meta, IMPORTS, 'c02r_check', None,
+                           'in a history of tasks on one space the best agent may miss an evaluated minimum (the task does not end in a state '
+                           'a following task may start from)', 'C02_task_histories', only=[o for o in _ir.OPTS if o not in failed])
         _ir.trace_inclusion(ctx, meta)
         _ir.state_replay(ctx, meta)
     ctx.cov['rule'] = ('theorem for all boxes/objectives/oracles/iteration counts per regenerated program; run monitor: best fitness versus the minimum of the '
                        'logged objective values at every record and at return, objectives with ties/plateaus/boundary optima')
     _ir.monitor(ctx)
     _ir.translation_failures(ctx, errors)
+    ctx.sample({'theorem': 'C02_task_histories: Forall (fun p => c02r_check p = true) ps -> c02_start x0 -> tasks02 ps x0 segs x\' -> every task: at every record '
+                           'and at return best.fit <= every value returned so far in the task and <= the inherited best fitness, and the best agent is an evaluated pair '
+                           'of the task or still the inherited one; over the whole history the best fitness never increases; c02_start x\''})
     ctx.sample({'theorem': 'C02_best_is_min: c02_check p = true -> run p = Some (x\', evs, o\') -> at every EvDump y (history h1 before it) and at return: '
                            'forall EvEval _ v in h1, best.fit <= v; (best.pos, best.fit) in h1 or best.fit = KMAX; every EvEval c v has v = f c'})
 
